@@ -277,6 +277,33 @@ impl Property for C15 {
             v.fail("solved spline does not have n coefficients", format!("{} vs {}", coef.len(), n));
             return v;
         }
+        // history independence: a spline object solved first on other data (and on a failed call)
+        // and then on these data holds the same coefficients as the freshly solved one
+        {
+            let other: Vec<f64> = s.y.iter().rev().map(|y| 1.0 - 0.5 * y).collect();
+            match catch(|| {
+                let mut q = PPSpline::<f64>::new(k, t.clone(), None);
+                let first = q.csolve(&s.tau, &other, s.left_n, s.right_n, s.lsq).is_ok();
+                let _ = q.csolve(&s.tau, &s.y[..rows - 1], s.left_n, s.right_n, s.lsq);
+                let second = q.csolve(&s.tau, &s.y, s.left_n, s.right_n, s.lsq).is_ok();
+                (first, second, q.c().as_ref().map(|c| c.to_vec()).unwrap_or_default(), q == sp)
+            }) {
+                Ok((true, true, again, equal)) => {
+                    if again.len() != coef.len() || again.iter().zip(coef.iter()).any(|(a, b)| a.to_bits() != b.to_bits()) || !equal {
+                        v.fail("re-solving a spline object does not give the coefficients of a fresh solve", format!("k={} t={:?} tau={:?}: {:?} vs {:?} (== {})", k, t, s.tau, again, coef, equal));
+                        return v;
+                    }
+                }
+                Ok(r) => {
+                    v.fail("csolve rejected an admissible site set", format!("on re-solve: {:?}", (r.0, r.1)));
+                    return v;
+                }
+                Err(p) => {
+                    v.fail(format!("csolve | panic | {}", p.site()), format!("re-solve, k={} t={:?} tau={:?}: {}", k, t, s.tau, p.message));
+                    return v;
+                }
+            }
+        }
         // spline from the library's coefficients on the reference basis
         let sref = |x: f64, m: usize| -> (f64, f64) {
             let mut val = 0.0;
@@ -677,7 +704,7 @@ impl Property for C15 {
     }
 
     fn rule(&self) -> String {
-        "random (order 2-6, knot sequence as in C14, site layout: Greville sites with end rows of derivative order 0-2, or for order 4 with distinct interior knots the callers' natural / clamped layout [a,a,interior knots,b,b] with second / first derivative end conditions; data: random floats or samples of a random polynomial of degree < k with matching end-derivative values; data kind float / first-order / second-order with datum j tagged y{j}; optional 1-6 extra sites solved by least squares; 1-4 evaluation points as in C14). Site sets are admissible by construction; draws whose collocation matrix has cond >= 1e8 (own estimate) are skipped and counted. Oracle: coefficients x reference basis (C14 model) reproduce every data row and end condition; polynomial data are reproduced with all derivatives m <= k everywhere; library evaluation == coefficients x reference basis; dual abscissae (plain tagged and composite) return s', s'' as sensitivities, for the spline and for every basis function through the four public dual basis entry points; splines with dual data evaluated at a dual abscissa (m = 0 and m = 1) carry d/dx = next derivative, d/dy_j = unit-data spline (its derivative for m = 1) and, at second order, the mixed (x, y_j) terms; for dual data d s(x)/d y_j == row of the independently inverted collocation matrix (and the library's own unit-data spline), zero Hessian; the 3x3 spline-kind x abscissa-kind table (mapped_value and direct) returns matching kinds and refuses first/second-order mixes; unsolved evaluation, wrong site counts and y/tau length mismatches are errors. Non-trivial: k >= 3, >= 1 interior knot, and non-polynomial or dual data.".into()
+        "random (order 2-6, knot sequence as in C14, site layout: Greville sites with end rows of derivative order 0-2, or for order 4 with distinct interior knots the callers' natural / clamped layout [a,a,interior knots,b,b] with second / first derivative end conditions; data: random floats or samples of a random polynomial of degree < k with matching end-derivative values; data kind float / first-order / second-order with datum j tagged y{j}; optional 1-6 extra sites solved by least squares; 1-4 evaluation points as in C14). Site sets are admissible by construction; draws whose collocation matrix has cond >= 1e8 (own estimate) are skipped and counted. Oracle: coefficients x reference basis (C14 model) reproduce every data row and end condition; an object solved before on other data (and through a failed call) ends with bit-identical coefficients; polynomial data are reproduced with all derivatives m <= k everywhere; library evaluation == coefficients x reference basis; dual abscissae (plain tagged and composite) return s', s'' as sensitivities, for the spline and for every basis function through the four public dual basis entry points; splines with dual data evaluated at a dual abscissa (m = 0 and m = 1) carry d/dx = next derivative, d/dy_j = unit-data spline (its derivative for m = 1) and, at second order, the mixed (x, y_j) terms; for dual data d s(x)/d y_j == row of the independently inverted collocation matrix (and the library's own unit-data spline), zero Hessian; the 3x3 spline-kind x abscissa-kind table (mapped_value and direct) returns matching kinds and refuses first/second-order mixes; unsolved evaluation, wrong site counts and y/tau length mismatches are errors. Non-trivial: k >= 3, >= 1 interior knot, and non-polynomial or dual data.".into()
     }
 
     fn floors(&self, tier: Tier) -> Vec<Floor> {
